@@ -133,6 +133,13 @@ func (f *Frame) call(c *ssa.CallCommon, instr ssa.Value, st *State, reach string
 			if v, ok := f.sprintf(c, args, instr.Name()); ok {
 				return v
 			}
+		case "github.com/cosmos/cosmos-sdk/types.MustNewDecFromStr":
+			if fc, ok := c.Args[0].(*ssa.Const); ok && fc.Value != nil {
+				if v, ok := decLiteral(constantString(fc)); ok {
+					g.trusted["github.com/cosmos/cosmos-sdk/types.MustNewDecFromStr (constant argument evaluated exactly)"] = true
+					return Val{Sort: "Int", Term: v, GoT: resT}
+				}
+			}
 		case "github.com/cosmos/cosmos-sdk/types.NewCoins":
 			if len(args) == 1 && args[0].Elems != nil {
 				g.useTheory("coins")
@@ -747,4 +754,37 @@ func constantString(c *ssa.Const) string {
 		return constant.StringVal(c.Value)
 	}
 	return ""
+}
+
+// decLiteral evaluates a decimal literal to the raw 18-decimal integer of sdk.Dec.
+func decLiteral(s string) (string, bool) {
+	neg := false
+	if strings.HasPrefix(s, "-") {
+		neg = true
+		s = s[1:]
+	}
+	parts := strings.Split(s, ".")
+	if len(parts) > 2 || len(parts[0]) == 0 {
+		return "", false
+	}
+	frac := ""
+	if len(parts) == 2 {
+		frac = parts[1]
+	}
+	if len(frac) > 18 {
+		return "", false
+	}
+	for _, ch := range parts[0] + frac {
+		if ch < '0' || ch > '9' {
+			return "", false
+		}
+	}
+	digits := strings.TrimLeft(parts[0]+frac+strings.Repeat("0", 18-len(frac)), "0")
+	if digits == "" {
+		digits = "0"
+	}
+	if neg && digits != "0" {
+		return "(- " + digits + ")", true
+	}
+	return digits, true
 }
